@@ -398,6 +398,41 @@ def run(world, rep, tier, only=None):
                "`%s` (line %d): %s advances by the result, and so does what the count `%s` is made of" %
                (n.text()[:40], n.line, pv, T.pp(cnt)[:20]))
 
+    # ------------------------------------------------------------------ C19.j a pending hole is never forgotten
+    # The raw writer skips zero blocks by counting them (`sparse`) and seeks over the bulk of a long run now and then.
+    # After the last block `if (sparse)` is what extends the image to its full size when it ends in a hole.  The counter
+    # therefore stays positive as long as the file position lies behind a hole: where it is reduced by a constant K,
+    # the guard in front guarantees more than K (`sparse > K`; `sparse >= K` would let it reach 0 behind a hole that
+    # is an exact multiple of K, and the image would end short).
+    om = ef["output_meta_data_blocks"]
+    tail_tests = [b for b in om.blocks if om.literal(b) and T.path(om.literal(b)[0]) is not None and
+                  loop_head(om, om.block_end(b)) is None]
+    n_red = 0
+    for n in om.events("S"):
+        v = T.path(n.ev["lhs"])
+        k_ = T.const(n.ev.get("rhs"))
+        if n.ev.get("o") != "-=" or k_ is None or v is None or not any(T.path(om.literal(b)[0]) == v for b in tail_tests):
+            continue
+        n_red += 1
+        ok = False
+        for t, a_ in control_lits(om, n):
+            a0 = T.strip(a_)
+            if t is None or not (isinstance(a0, dict) and a0.get("k") == "b" and a0.get("o") in ("<", "<=", ">", ">=")):
+                continue
+            l_, r_, o_ = a0["l"], a0["r"], a0["o"]
+            if T.path(r_) == v:
+                l_, r_, o_ = r_, l_, {"<": ">", "<=": ">=", ">": "<", ">=": "<="}[o_]
+            c_ = T.const(r_)
+            if T.path(l_) != v or c_ is None:
+                continue
+            if not t:
+                o_ = {"<": ">=", "<=": ">", ">": "<=", ">=": "<"}[o_]
+            if (o_ == ">" and c_ >= k_) or (o_ == ">=" and c_ > k_):
+                ok = True
+        rep.ob("C19.j", site(om, "%s stays positive when it is reduced#%d" % (v, n_red)), ok,
+               "`%s` (line %d) lies behind a test that guarantees %s > %d" % (n.text()[:30], n.line, v, k_))
+    rep.floor("C19.j reductions of the pending-hole counter in output_meta_data_blocks", n_red, 1)
+
     # ------------------------------------------------------------------ C19.w offset width
     fns = [f for f in prog.functions() if f.file in (E2I, QC, "lib/ext2fs/imager.c")]
     hits, n_and = width.zx_masks(fns)
